@@ -407,6 +407,9 @@ def hyp_documents(draw, tier):
 RULE_ROUND8 = ' One generated forest in 20 (60 in the thorough tier) is a BIG one (gen.big_specs: a child list of 11..300 nodes, that many clones of one data object, more than 256 nodes), with node references aimed at notable positions of the long child lists. Histories and routes also run with int data (incl. the hash twins -1 / -2), objects keyed by a callback and by a Tree subclass overriding calc_data_id(). Part python-O: histories and routes with PYTHONOPTIMIZE=1.'
 RULE = RULE + RULE_ROUND8
 
+RULE_ROUND9 = " Directed route patterns: nested clones whose INNER one is the older node (created first, moved below a younger clone), and an int data_id next to its string look-alike (7, '7', 7) in the child list that an un-nesting would produce."
+RULE = RULE + RULE_ROUND9
+
 PARTS = [
     Part("histories", run_histories, strategy=hyp_histories, n={"quick": 600, "thorough": 100000}),
     Part("routes", run_routes, strategy=hyp_routes, n={"quick": 600, "thorough": 100000}),
